@@ -294,6 +294,17 @@ class APE:
             if a[0] == "s" and a[1].startswith("!") and b == ("c", 0):
                 # (!x) ? 0
                 return self._truth_atom(("s", a[1][1:]), ALL - acc if acc in (frozenset((EQ,)), frozenset((LT, GT))) else None, (l, r))
+            # integer normal forms: x < 1 == x <= 0, x >= 1 == x > 0, x > -1 == x >= 0, x <= -1 == x < 0
+            lt = strip(l).get("ct", strip(l).get("t", ""))
+            if b[0] == "c" and "*" not in lt and "float" not in lt and "double" not in lt:
+                if b[1] == 1 and acc == OPSETS["<"]:
+                    b, acc = ("c", 0), OPSETS["<="]
+                elif b[1] == 1 and acc == OPSETS[">="]:
+                    b, acc = ("c", 0), OPSETS[">"]
+                elif b[1] == -1 and acc == OPSETS[">"]:
+                    b, acc = ("c", 0), OPSETS[">="]
+                elif b[1] == -1 and acc == OPSETS["<="]:
+                    b, acc = ("c", 0), OPSETS["<"]
             key = (vstr(a), vstr(b))
             return (key, acc, (l, r))
         v = self.val(st, n)
